@@ -228,6 +228,10 @@ func runC07(c *Ctx) {
 	// against the capacity accepts it when the frame lies in a recycled page, and the request is acted upon with stale bytes
 	checkNoSliceExtension(c, "R15")
 	checkSpecificPacketGuarded(c, "R16")
+	// R17 (shared with C02.R1): each iteration of a worker answers its request exactly once — a second answer to the same
+	// request releases the packet manager's barrier twice (WaitGroup goes negative: panic) and a refused request is
+	// carried out after all
+	c.withOnly("R1", "R17", func() { runC02(c) })
 	// R13 (shared with C02.R0): a well-formed request of every type makePacket can build lands in a case of the os
 	// server's dispatcher that answers it; the default arm returns an error, which ends the command worker without a
 	// reply — with more requests in the stream Serve then waits for a worker that is gone
@@ -775,24 +779,40 @@ func checkMakePacketTable(c *Ctx, rule string) {
 		c.missing(rule, "makePacket")
 		return
 	}
-	if len(mk.Params) != 1 {
-		c.und(rule, "makePacket table", p.Pos(mk.Pos()), "makePacket no longer takes the received packet as its one argument")
-		return
-	}
-	st, ok := mk.Params[0].Type().Underlying().(*types.Struct)
-	if !ok {
-		c.und(rule, "makePacket table", p.Pos(mk.Pos()), "the argument of makePacket is not a struct")
-		return
-	}
-	typeField := ""
-	var typeT types.Type
-	for i := 0; i < st.NumFields(); i++ {
-		if b, ok := st.Field(i).Type().Underlying().(*types.Basic); ok && b.Kind() == types.Uint8 {
-			typeField, typeT = st.Field(i).Name(), st.Field(i).Type()
+	// the type byte arrives as a field of the received-packet struct, or as a parameter of its own
+	buildArgs := func(k int64) []evVal { return nil }
+	found := false
+	for pi, prm := range mk.Params {
+		pi := pi
+		if b, ok := prm.Type().Underlying().(*types.Basic); ok && b.Kind() == types.Uint8 {
+			typeT := prm.Type()
+			buildArgs = func(k int64) []evVal {
+				args := make([]evVal, len(mk.Params))
+				args[pi] = evInt(k, typeT)
+				return args
+			}
+			found = true
+			break
+		}
+		if st, ok := prm.Type().Underlying().(*types.Struct); ok {
+			for i := 0; i < st.NumFields(); i++ {
+				if b, ok := st.Field(i).Type().Underlying().(*types.Basic); ok && b.Kind() == types.Uint8 {
+					fname, typeT, structT := st.Field(i).Name(), st.Field(i).Type(), prm.Type()
+					buildArgs = func(k int64) []evVal {
+						args := make([]evVal, len(mk.Params))
+						args[pi] = evVal{k: evObject, obj: &evObj{typ: structT, fields: map[string]evVal{fname: evInt(k, typeT)}}}
+						return args
+					}
+					found = true
+				}
+			}
+			if found {
+				break
+			}
 		}
 	}
-	if typeField == "" {
-		c.und(rule, "makePacket table", p.Pos(mk.Pos()), "no type byte field in makePacket's argument")
+	if !found {
+		c.und(rule, "makePacket table", p.Pos(mk.Pos()), "no type byte among makePacket's arguments")
 		return
 	}
 	bad, und := 0, 0
@@ -801,8 +821,7 @@ func checkMakePacketTable(c *Ctx, rule string) {
 		ev.intercept = func(call *ssa.CallCommon, args []evVal) bool {
 			return call.IsInvoke() && call.Method.Name() == "UnmarshalBinary"
 		}
-		arg := evVal{k: evObject, obj: &evObj{typ: mk.Params[0].Type(), fields: map[string]evVal{typeField: evInt(k, typeT)}}}
-		res := ev.run(mk, []evVal{arg}, 0)
+		res := ev.run(mk, buildArgs(k), 0)
 		got := ""
 		switch res.kind {
 		case "intercept":
@@ -920,7 +939,7 @@ func checkSpecificPacketGuarded(c *Ctx, rule string) {
 			}
 		}
 	}
-	c.check(n >= 3, rule, "uses of the specific packet", "?", fmt.Sprintf("%d uses", n), fmt.Sprintf("only %d uses of SpecificPacket found (readonly, respond and the request server's worker expected)", n))
+	c.check(n >= 2, rule, "uses of the specific packet", "?", fmt.Sprintf("%d uses", n), fmt.Sprintf("only %d uses of SpecificPacket found (respond and the request server's worker expected)", n))
 }
 
 // checkBadPacketEndsSession (C07.R1/R2; the R2 part shared as C11.R14): per receive loop, a packet that failed to decode
